@@ -4,19 +4,6 @@
 From GFS Require Import Base Dec Regex GenRegex GenPadTables Pad Path Seq Listing SpecSeq
   DecProofs CompressProofs FramePathProofs.
 
-(** [item_of_path] on an already cleaned path *)
-Definition item_of_clean (c : bytes) : fitem :=
-  let sep := path_sep c in
-  let '(d, f) := path_split c in
-  let d := match d with
-           | [] => d
-           | _ => if ends_with_byte d sep then d else d ++ [sep]
-           end in
-  mkItem d f.
-
-Lemma item_of_path_clean : forall p, item_of_path p = item_of_clean (path_clean p).
-Proof. reflexivity. Qed.
-
 (** [byte] is [nat] in the model: a real string holds values below 256 only
     (the generated class for [^.] stops at 255) *)
 Definition is_bytes (s : bytes) : Prop := Forall (fun c => (c < 256)%nat) s.
@@ -40,3 +27,19 @@ Definition name_ok (p : bytes) : Prop :=
 
 Definition visible (hidden : bool) (p : bytes) : bool :=
   hidden || negb (has_prefix (snd (path_split p)) [c_dot]).
+
+(** a member of a numbered sequence: the file name holds a frame number and
+    something else (a bare number such as "123" is listed as a single file) *)
+Definition numbered (p : bytes) : bool :=
+  match submatches R_optionalFramePattern (snd (path_split p)) 3 with
+  | Some [base; frame; ext] =>
+    match frame with
+    | [] => false
+    | _ => match base, ext with [], [] => false | _, _ => true end
+    end
+  | _ => false
+  end.
+
+(** an outcome that is a value or an error: no panic, no fuel artefact *)
+Definition benign {A : Type} (x : outcome A) : Prop :=
+  match x with Ok _ | Err _ => True | _ => False end.
